@@ -102,6 +102,13 @@ CLAIMED = {
             'correspondence of the parsers and configuration histories.',
             'regenerated tables + decide +kernel, induction over histories, exhaustive differential run of parsers, behavioural search',
             '5 C18'),
+    'C10': ('Theorems: (regenerated from the current source, kernel-checked) every attribute the computations read is re-derived by _init_trajectory or set by the '
+            'constructor, and the lists of global writers / foreign stores / self-mutators are exactly the documented ones; (abstract, for all histories and all '
+            'schedules) a calculator with that frame property gives, in any history incl. failing calls and under any interleaving of calculators owned by distinct '
+            'threads, the outcome of a fresh calculator. Tie: every call inside random histories on long-used calculators compared bit for bit with the '
+            'history-free model + deep argument snapshots; real threads are sampled only.',
+            'regenerated read/write sets + decide, induction over histories and schedules, bit-exact differential histories, snapshot + thread sampling',
+            '5 C10'),
     'C11': ('Theorems over the loop model: state/wind-sock/by-products after an iteration are those of the physical step alone (any flags, steps, '
             'filter state); by induction a completed run ends on the shot\'s physical state sequence, only the prefix length depends on the request; '
             'distance-trigger rows are the interpolant of two consecutive states; plain vs extra and with/without time step one-step simulations. '
